@@ -43,7 +43,8 @@ class LinProver:
         self.ctx = ctx or cur()
         self.hyps = list(hyps if hyps is not None else
                          [h for _, h in self.ctx.hyps])
-        self.nonneg = list(nonneg if nonneg is not None else self.ctx.signs)
+        self.nonneg = list(nonneg if nonneg is not None else
+                           self.ctx.signs + self.ctx.path_facts)
         self.vars = {}
         self.timeout_ms = timeout_ms
         self.instances = 0
@@ -129,10 +130,57 @@ class LinProver:
         self.ctx.stats.add('lra-abstraction', dt)
         return r, dt
 
+    def derived_facts(self):
+        """sound consequences of the sign facts: for sqrt atoms a = sqrt(p),
+        b = sqrt(q):  a - b >= 0  =>  p - q >= 0"""
+        out = []
+        ctx = self.ctx
+        for f in self.nonneg:
+            if len(f.t) != 2:
+                continue
+            items = list(f.t.items())
+            (m1, c1), (m2, c2) = items
+            if c1 + c2 != 0 or len(m1) != 1 or len(m2) != 1 or \
+                    m1[0][1] != 1 or m2[0][1] != 1:
+                continue
+            a1, a2 = ctx.atoms[m1[0][0]], ctx.atoms[m2[0][0]]
+            if a1.kind == 'sqrt' and a2.kind == 'sqrt':
+                pos, neg = (a1, a2) if c1 > 0 else (a2, a1)
+                out.append(pos.data - neg.data)
+        return out
+
+    def nonneg_instances(self, goals, facts, max_deg=8, max_inst=3000):
+        """goal-directed products fact * monomial with the monomial's sign
+        known non-negative from the atoms' declared signs"""
+        from .core import _mono_sign
+        targets = set()
+        for g in goals:
+            targets.update(g.t.keys())
+        out, done = [], set()
+        for fi, f in enumerate(facts):
+            for tf in f.t:
+                for t in targets:
+                    m = mono_div(t, tf) if tf else t
+                    if m is None or not m or mono_degree(m) > max_deg:
+                        continue
+                    if (fi, m) in done:
+                        continue
+                    done.add((fi, m))
+                    sg = _mono_sign(Poly({m: 1}))
+                    if sg is None or sg[1] < 0:
+                        continue
+                    out.append(f * Poly({m: 1}))
+                    if len(out) >= max_inst:
+                        return out
+        return out
+
     def prove_nonneg(self, polys, rounds=1, max_deg=6, max_inst=4000,
-                     sign_products=False):
+                     sign_products=False, goal_directed=False):
         """All polys >= 0 ?"""
         insts = self.instantiate(polys, rounds, max_deg, max_inst)
+        if goal_directed:
+            facts = list(self.nonneg) + self.derived_facts()
+            self.nonneg = facts + self.nonneg_instances(polys, facts)
         s = self._solver(insts, sign_products)
         s.add(z3.Or(*[self.lin(p) < 0 for p in polys]))
         t0 = time.time()
